@@ -265,8 +265,89 @@ fn run_model(pool: Arc<Pool>, progs: Vec<Vec<Op>>, bound: usize, execs: &AtomicU
     });
 }
 
+// ------------------------------------------------------------------------------------------
+// C16: routers built on different threads. The only state they share is the route-id counter
+// (an atomic, hook H9 puts a scheduling point before each of its operations).
+// ------------------------------------------------------------------------------------------
+
+fn tagged(tag: String) -> impl tower::Service<anemo::Request<bytes::Bytes>, Response = anemo::Response<bytes::Bytes>, Error = std::convert::Infallible, Future = impl Send + 'static> + Clone + Send + 'static {
+    tower::service_fn(move |_req: anemo::Request<bytes::Bytes>| {
+        let tag = tag.clone();
+        async move { Ok::<_, std::convert::Infallible>(anemo::Response::new(bytes::Bytes::new()).with_header("svc", tag)) }
+    })
+}
+
+/// Build a router of `n` routes (the last `merged` of them through `merge`) and report every path
+/// that is not answered by its own service.
+fn build_and_probe(name: &str, n: usize, merged: usize) -> Vec<String> {
+    use futures::FutureExt;
+    use tower::Service;
+    let mut router = anemo::Router::new();
+    for i in 0..(n - merged) {
+        router = router.route(&format!("/{name}/{i}"), tagged(format!("{name}{i}")));
+    }
+    if merged > 0 {
+        let mut other = anemo::Router::new();
+        for i in (n - merged)..n {
+            other = other.route(&format!("/{name}/{i}"), tagged(format!("{name}{i}")));
+        }
+        router = router.merge(other);
+    }
+    let mut wrong = vec![];
+    for i in 0..n {
+        let path = format!("/{name}/{i}");
+        let resp = router.call(anemo::Request::new(bytes::Bytes::new()).with_route(path.clone())).now_or_never().expect("routing is synchronous").unwrap();
+        let got = resp.headers().get("svc").cloned();
+        if got.as_deref() != Some(&format!("{name}{i}")) {
+            wrong.push(format!("{path} was answered by {got:?} with status {:?}", resp.status()));
+        }
+    }
+    wrong
+}
+
+fn run_routes(thorough: bool) {
+    let execs = Arc::new(AtomicU64::new(0));
+    let bad: Arc<Mutex<Vec<String>>> = Arc::new(Mutex::new(vec![]));
+    let mut models = 0u64;
+    // (routes of thread A, of which merged), (routes of thread B, of which merged)
+    let mut shapes = vec![((3usize, 0usize), (1usize, 0usize)), ((3, 1), (1, 0)), ((2, 0), (2, 0)), ((3, 0), (2, 1))];
+    if thorough {
+        shapes.extend([((4, 0), (1, 0)), ((4, 2), (2, 0)), ((3, 0), (3, 0))]);
+    }
+    for (a, b) in shapes {
+        models += 1;
+        let mut builder = loom::model::Builder::new();
+        builder.preemption_bound = Some(if thorough { 4 } else { 3 });
+        builder.max_branches = 100_000;
+        let (execs2, bad2) = (execs.clone(), bad.clone());
+        builder.check(move || {
+            execs2.fetch_add(1, Ordering::Relaxed);
+            let hook = Arc::new(Hook { lock: Arc::new(loom::sync::RwLock::new(())), pt: Arc::new(loom::sync::atomic::AtomicUsize::new(0)) });
+            anemo::verif::set_lock_hook(Some(hook));
+            let ha = loom::thread::spawn(move || build_and_probe("a", a.0, a.1));
+            let hb = loom::thread::spawn(move || build_and_probe("b", b.0, b.1));
+            let mut wrong = ha.join().unwrap();
+            wrong.extend(hb.join().unwrap());
+            anemo::verif::set_lock_hook(None);
+            if !wrong.is_empty() {
+                let mut bd = bad2.lock().unwrap();
+                let m = format!("two threads building routers of {a:?} and {b:?} routes (n, merged) at the same time: {}", wrong.join("; "));
+                if bd.len() < 5 && !bd.contains(&m) {
+                    bd.push(m);
+                }
+            }
+        });
+    }
+    let bad = bad.lock().unwrap().clone();
+    println!("{}", json!({"models": models, "schedules": execs.load(Ordering::Relaxed), "preemption_bound": if thorough { 4 } else { 3 }, "violations": bad}));
+}
+
 fn main() {
     let thorough = std::env::args().nth(1).as_deref() == Some("thorough");
+    if std::env::args().nth(2).as_deref() == Some("routes") {
+        run_routes(thorough);
+        return;
+    }
     let rt = tokio::runtime::Builder::new_multi_thread().worker_threads(2).enable_all().build().unwrap();
     let pool = Arc::new(build_pool(&rt));
     // connection indices: peer P: 0 in, 1 out, 2 in, 3 out; peer Q: 4 in, 5 out, ...
